@@ -16,6 +16,7 @@ LEVEL_TEXT = ("Dividend/divisor pairs from seven classes (random, exact multiple
               "divisors incl. zero entries, univariate, incomparable top terms, arrays with per-element different "
               "leading terms) are divided with the loop monitor armed; the identity, true-quotient, cofactor and "
               "degree conditions are checked in the model and / % divmod (also reflected) are compared with poly_*.")
+FUZZ_RUNS = {"thorough": 1500}  # atheris/libFuzzer campaign over the same strategy and oracle
 RULE = (
     "dividend/divisor pairs over 1-3 indeterminates (q0,q1,q2), shapes 0-d..2-d with broadcasting, int and float "
     "coefficients, from the classes random / exact-multiple (cofactor*divisor built in numpoly and in the model) / "
